@@ -39,7 +39,7 @@ async def proxied(loop, handler, request, reply=b"20 text/plain\r\nhi"):
 def gen_proxy_cfg(rng):
     host = rng.choice(["backend", "Backend.Example", "10.0.0.5", "[::1]", "[fe80::1%25eth0]", "b-1.internal"])
     port = rng.choice(["", "", ":1965", ":1966", ":70"])
-    base = rng.choice(["", "", "/", "/base", "/base/", "/a/b", "//"])
+    base = rng.choice(["", "", "/", "/base", "/base/", "/a/b", "//", "/Archive/V2", "/Mixed/Case/", "/%41b"])
     up = "gemini://" + host + port + base
     if rng.random() < 0.05: up += rng.choice(["?x=1", "/p?q"])
     prefix = rng.choice(["/", "/api", "/api/", "/a", "/mirror/", "", "/api/v1", "/%41"])
